@@ -28,7 +28,7 @@ CATCH = {  # checks expected to catch the change (first = the property's own che
  "C01": ["C01"], "C02": ["C02"], "C03": ["C03"], "C04": ["C04", "C12", "C13"], "C05": ["C05", "C03"], "C06": ["C06"], "C07": ["C07"], "C08": ["C08"], "C09": ["C09"], "C10": ["C10"],
  "C11": ["C11"], "C12": ["C12"], "C13": ["C13"], "C14": ["C14"], "C15": ["C15"], "C16": ["C16"], "C17": ["C17"], "C18": ["C18"], "C19": ["C19"], "C20": ["C20"],
 }
-ids = sys.argv[1:] or sorted(NEEDS)
+ids = sys.argv[1:] or sorted(d for d in os.listdir(os.path.join(V, "seeded")) if os.path.isdir(os.path.join(V, "seeded", d)))   # "C07" = first round, "C07b" = second round
 subprocess.run(["rm","-rf","/verif/build/evidence.keep"]); subprocess.run(["cp","-a","/verif/evidence","/verif/build/evidence.keep"],check=True)
 for sid in ids:
     d = os.path.join(V, "seeded", sid)
@@ -37,21 +37,27 @@ for sid in ids:
     subprocess.run(["git", "-C", "/repo", "checkout", "--", "."], check=True)
     r = subprocess.run(["git", "-C", "/repo", "apply", patch])
     results = {}
+    prop = sid[:3]
+    extra = []
+    if os.path.exists(os.path.join(d, "also_run.txt")): extra = open(os.path.join(d, "also_run.txt")).read().split()
+    checks = CATCH[sid] if sid in CATCH else [prop] + extra
     if r.returncode == 0:
-        for chk in CATCH[sid]:
+        for chk in checks:
             p = subprocess.run([os.path.join(V, "bin/check"), chk, "quick"], capture_output=True, text=True, cwd=V)
             sigs = sorted(set(re.findall(r"violation sig=(\S+)", p.stdout)))
             results[chk] = dict(exit=p.returncode, violation_lines=len(re.findall(r"^VIOLATION ", p.stdout, re.M)), signatures=sigs[:6])
             print(sid, chk, results[chk], flush=True)
     subprocess.run(["git", "-C", "/repo", "checkout", "--", "."], check=True)
     conf = ""
-    cl = "/tmp/seeds/%s/confirm.log" % sid
+    cl = "/tmp/seeds%s/%s/confirm.log" % (("2", prop) if sid.endswith("b") else ("", sid))
     if os.path.exists(cl): conf = open(cl).read().strip().splitlines()[-1]
+    elif os.path.exists(os.path.join(d, "meta.json")): conf = json.load(open(os.path.join(d, "meta.json"))).get("confirmed", {}).get("result", "")
+    needs = NEEDS.get(sid) or (open(os.path.join(d, "needs.txt")).read().strip() if os.path.exists(os.path.join(d, "needs.txt")) else "see NOTES.md")
     meta = dict(
-        breaks_property=sid, needs_to_manifest=NEEDS[sid],
+        breaks_property=prop, needs_to_manifest=needs,
         source="independent sub-agent given only the property text and a scratch worktree",
-        confirmed=dict(how="tools/confirm_seed.sh %s in scratch worktree /tmp/wt-%s at /repo HEAD: bin/baseline.sh-equivalent (137 stable tests) passes with the patch; "
-                           "the demonstration (run.sh) fails with the patch and passes without it" % (sid, sid), result=conf),
+        confirmed=dict(how="tools/confirm_seed.sh %s in its scratch worktree at /repo HEAD: bin/baseline.sh-equivalent (137 stable tests) passes with the patch; "
+                           "the demonstration (run.sh) fails with the patch and passes without it" % prop, result=conf),
         patch_applies=(r.returncode == 0),
         checks_run={k: v for k, v in results.items()},
         caught_by=[k for k, v in results.items() if v["exit"] == 1 and v["violation_lines"] > 0],
